@@ -4,6 +4,7 @@ import SJ.Model.Access
 import SJ.Model.Number
 import SJ.Model.Marshal
 import SJ.Model.StringDec
+import SJ.GoSem.IfaceVal
 set_option linter.unusedVariables false
 /-
 GoSem — a small imperative language with a big-step interpreter, the target of the Go→Lean translator
@@ -45,7 +46,14 @@ inductive Val where
   | bools (l : List Bool)                   -- the answers a callback will give, in call order (see `Stmt.cb`)
   | ints (l : List Int)                     -- the log of what callbacks were given; also a `[]int64`
   | u64s (l : List UInt64)                  -- a `[]uint64`, or a `[]float64` as bit patterns
+  | iface (v : IVal)                        -- an `interface{}` as `Interface()` builds them; also a `[]interface{}`
+                                            -- (`.arr`) and a `map[string]interface{}` (`.obj`); nil and empty conflated
   deriving DecidableEq, Repr, Inhabited
+
+/-- the dynamic type a scalar is boxed with when it becomes an `interface{}` -/
+inductive IKind where
+  | uint | int | float | str | bool
+  deriving DecidableEq, Repr
 
 inductive BinOp where
   | add | sub | and | or | shr | shl | eq | ne | lt | le | gt | ge | xor | div | mul
@@ -100,6 +108,11 @@ inductive Expr where
   | idxI (a i : Expr)                       -- `a[i]` of a `[]int64` (here: the flattened iterators of an `Elements` slice)
   | nilK                                    -- an empty `[]string`
   | pushK (a e : Expr)                      -- `append(a, e)` for one string `e` (its bytes)
+  | nilV                                    -- `nil` as an `interface{}`
+  | nilA                                    -- an empty `[]interface{}` (`var dst []interface{}`, `make([]interface{}, 0, n)`)
+  | nilM                                    -- an empty `map[string]interface{}` (`make(map[string]interface{})`)
+  | box (k : IKind) (a : Expr)              -- a uint64 / int64 / float64 / string / bool converted to `interface{}`
+  | pushA (a e : Expr)                      -- `append(a, e)` for a `[]interface{}` and one `interface{}`
   deriving Repr, Inhabited
 
 inductive Stmt where
@@ -144,6 +157,9 @@ inductive Stmt where
   | oracle (target name : String)
       -- `target = name(…)` for a function known only by contract to return *some* uint64 (`runtime.memhash`, seeded
       -- per process): the answer is the next element of the variable `name.answers` (a `Val.u64s`)
+  | mapSetV (name : String) (k v : Expr)
+      -- `m[k] = v` for a `map[string]interface{}` variable: an existing key's entry is removed, the new entry comes last
+      -- (`SJ.mapInsert`; a Go map has no order, the list is compared up to order by whoever reads it)
   deriving Repr, Inhabited
 
 structure FunDef where
@@ -357,6 +373,15 @@ def fcmp (op : BinOp) (b : UInt64) (k : Int) : Option Bool :=
   | .gt => some (F64.gtInt b k)
   | .lt => some (F64.ltInt b k)
   | _ => none
+
+/-- a scalar as an `interface{}` of the given dynamic type -/
+def boxVal : IKind → Val → Option IVal
+  | .uint, .u64 w => some (.uint w.toNat)
+  | .int, .int z => some (.int z)
+  | .float, .u64 w => some (.float w)
+  | .str, .bytes b => some (.str b)
+  | .bool, .bool b => some (.bool b)
+  | _, _ => none
 
 /-- result of evaluating an expression: a value, a run-time panic, or an ill-typed tree -/
 inductive EOut where
@@ -641,6 +666,22 @@ def evalE (s : St) : Expr → EOut
     | .val (.u8 k) => (match tblLookup name k.toNat with | some r => .val r | none => .stuck ("table " ++ name))
     | .val _ => .stuck "table index type"
     | o => o
+  | .nilV => .val (.iface .null)
+  | .nilA => .val (.iface (.arr []))
+  | .nilM => .val (.iface (.obj []))
+  | .box k a =>
+    match evalE s a with
+    | .val x => (match boxVal k x with | some r => .val (.iface r) | none => .stuck "boxed value type")
+    | o => o
+  | .pushA a e =>
+    match evalE s a with
+    | .val (.iface (.arr l)) =>
+      (match evalE s e with
+       | .val (.iface y) => .val (.iface (.arr (l ++ [y])))
+       | .val _ => .stuck "append operand"
+       | o => o)
+    | .val _ => .stuck "append operand"
+    | o => o
 
 /-- evaluate a list of expressions left to right -/
 def evalEs (s : St) : List Expr → Except EOut (List Val)
@@ -797,6 +838,18 @@ def exec1 (funs : String → Option FunDef) : (fuel : Nat) → Stmt → St → O
     | some (.u64s (r :: rest)) => .normal { s with env := (s.env.set (name ++ ".answers") (.u64s rest)).set target (.u64 r) }
     | some (.u64s []) => .stuck "oracle answers exhausted"
     | _ => .stuck "no oracle answers"
+  | fuel, .mapSetV name k v, s =>
+    match s.env.get name with
+    | some (.iface (.obj m)) =>
+      (match evalE s k with
+       | .val (.bytes kb) =>
+         (match evalE s v with
+          | .val (.iface x) => .normal { s with env := s.env.set name (.iface (.obj (mapInsert m kb x))) }
+          | .val _ => .stuck "map value type"
+          | o => ofE o)
+       | .val _ => .stuck "map key type"
+       | o => ofE o)
+    | _ => .stuck "map variable"
   | fuel, .setB name idx e, s =>
     match s.env.get name with
     | some (.bytes b) =>
